@@ -971,6 +971,14 @@ func (ctx Ctx) binExpr(e *ast.BinaryExpr) coq.Expr {
 		token.SHL:  coq.OpShl,
 		token.SHR:  coq.OpShr,
 	}[e.Op]
+	if isString(ctx.typeOf(e.X)) {
+		switch e.Op {
+		case token.LSS, token.GTR, token.LEQ, token.GEQ:
+			// GooseLang only defines equality and append on strings
+			ctx.unsupported(e, "ordering comparison %v of strings", e.Op)
+			return nil
+		}
+	}
 	if e.Op == token.ADD {
 		if isString(ctx.typeOf(e.X)) {
 			op = coq.OpAppend
